@@ -67,6 +67,10 @@ def run(chk):
     for ns, nd in ((1, 1), (1, 2), (2, 1), (2, 2)):
         ex += A.gen_exhaustive(ns, nd, "plain", blocks=("run",), ps=tuple(range(ns)))
     ex += A.gen_exhaustive(1, 1, "plain", blocks=("run", "run"), ps=(0,))
+    # the other public drain entry points (supervisor.drain_children, drain_and_wait with / without timeout)
+    for ns, nd in ((1, 1), (1, 2), (2, 1), (2, 2)):
+        ex += A.gen_exhaustive(ns, nd, "dvar")
+        ex += A.gen_exhaustive(ns, nd, "dvar", blocks=("run",))
     # drain while the actor is still in pre_start (spawn_instant, pre_start parked at a gate)
     ex += A.instant_scenarios(chk.rng, 60 if quick else 600)
     res = A.run_scenarios(chk, build, ex, "C07e")
@@ -137,7 +141,8 @@ def run(chk):
         "(box_message door: ticket taken, not yet enqueued) with 1..2 drain() calls, in variants plain / re-entrant drain "
         "from box_message / re-entrant send from box_message / an extra un-gated send, each followed by run, a late send, run; "
         "post_stop family: 1..2 senders x 1..2 drains with the actor run at every intermediate position and the target's "
-        "post_stop releasing the parked senders; instant family: spawn_instant target parked in pre_start, all sequences of "
+        "post_stop releasing the parked senders; drain-entry family: the same orders with the drains issued through "
+        "supervisor.drain_children / drain_and_wait(Some) / drain_and_wait(None); instant family: spawn_instant target parked in pre_start, all sequences of "
         "length <= 3 over {send, drain, parked sender thread, send whose handler drains} before the start gate opens; race: "
         "3000 rounds of 6..8 pooled sender threads casting until refused against one drain() (verdict after quiescence); "
         "random: seeded structured scenarios (gated threads, handler scripts with self-sends/drain/stop/kill, wrong type, "
